@@ -53,7 +53,12 @@ func init() {
 			"canary_checks", "canary_selftest_detects", "canary_unmoved",
 			"control_v2_calls", "control_v2_agree", "sorted_order_checks", "errorpath_calls", "crossprocess_cases",
 			"twin_scenarios", "twin_scenarios_dposv2_active", "twin_heights_compared", "twin_heights_equal", "twin_heights_compared_dposv2_active", "twin_changes_of_next", "twin_changes_of_cand", "twin_changes_of_rnd",
-			"twin_canary_brackets", "twin_canary_unmoved", "twin_gomaxprocs_1_vs_16"},
+			"twin_canary_brackets", "twin_canary_unmoved", "twin_gomaxprocs_1_vs_16",
+			"readfault_cases", "readfault_cases:getCandidateIndexAtRandom", "readfault_cases:getSortedProducersWithRandom", "readfault_cases:getRandomDposV2Producers",
+			"readfault_prev_unreadable_tip_readable", "readfault_outcome_error", "readfault_outcome_selection", "readfault_tip_independent",
+			"onduty_answers_checked", "onduty_recover_steps", "onduty_recover_roundchange_steps", "onduty_recover_rollback_steps", "onduty_recover_calls_overlapping_a_step",
+			"onduty_recover_episodes:crc-branch", "onduty_recover_episodes:all-arbiters-branch",
+			"onduty_blocks_episodes", "onduty_blocks_roundchange_episodes", "onduty_blocks_steps", "onduty_blocks_calls_overlapping_a_step"},
 		Assumptions: []string{
 			"go1.23.5 with go.mod 'go 1.20': rand.Seed(s);rand.Intn(n) on the global source equals rand.New(rand.NewSource(s)).Intn(n) when nothing interleaves (calibrated in every run; the run is inconclusive otherwise)",
 			"the exported wrappers in dpos/state/verif_rand_export.go call the unexported helpers unchanged; the only inserted line is verifhook.At(\"arbiters.afterSeed\")",
@@ -92,6 +97,13 @@ func runC24(c *kit.Ctx) {
 	// times; per-height arbiters, candidates, on-duty order and random candidate
 	// must be identical; consensus-state steps bracketed with the canary.
 	c24Twin(c)
+	// Fault / concurrency families (second round):
+	//   c24_readfault.go  selection entry points over one chain for several tips with a
+	//                     block getter that fails for chosen heights
+	//   c24_onduty.go     on-duty getters read while a writer changes / rolls back rounds
+	c24ReadFault(c)
+	c24OnDutyRecover(c)
+	c24OnDutyBlocks(c)
 }
 
 // ---------------------------------------------------------------- calibration
